@@ -690,7 +690,7 @@ rr_shape!(srv_rr_an_tsig, 1, 0, 0, 0, 250, RC_FORMERR, RC_FORMERR);
 //   sym="id, flag octets, class, TTL"
 rr_shape!(srv_rr_an_a, 1, 0, 0, 0, 1, RC_REFUSED, RC_NOTIMP);
 
-// @harness name=srv_rr_ar_a props=C01,C02,C03,C04,C07,C08,C09 panics=C01 tier=thorough mem=4 t=900 stubs="S4" kani="--no-assertion-reach-checks"
+// @harness name=srv_rr_ar_a props=C01,C02,C03,C04,C07,C08,C09 panics=C01 quick=C07,C08 mem=4 t=900 stubs="S4" kani="--no-assertion-reach-checks"
 //   fn="Server::handle_message,Reader::peek_rr,PeekRr::skip"
 //   bound="UDP; Q + one type-A record with RDLENGTH 0 in the additional section; unwind 12" sym="id, flag octets, class, TTL"
 rr_shape!(srv_rr_ar_a, 0, 0, 1, 0, 1, RC_REFUSED, RC_NOTIMP);
@@ -816,4 +816,25 @@ fn srv_opt_owner_a() {
     ];
     let seen = exchange_udp(CatNone, CAT_NONE, &req, 7, 512);
     kani::cover!(seen.responded && seen.rcode == RC_FORMERR && seen.has_opt, "FORMERR with OPT seen");
+}
+
+// @harness props=C01,C02,C03,C04,C07,C08,C09 panics=C01 quick=C09,C07 mem=8 t=1500 stubs="S4" kani="--no-assertion-reach-checks"
+//   fn="Server::handle_message,Server::handle_message_with_context,PeekRr::skip,validate_opt"
+//   bound="UDP; Q + an ordinary type-A record (RDLENGTH 0, symbolic class/TTL) followed by an OPT (advertised 4096, symbolic TTL) in the additional section; server size 512; unwind 12"
+//   sym="id, flag octets, class/TTL of the A record, OPT TTL"
+#[kani::proof]
+#[kani::unwind(12)]
+#[kani::stub(rrl::Rrl::should_slip, should_slip_model)]
+fn srv_a_then_opt() {
+    let h: [u8; 4] = kani::any();
+    let c: [u8; 6] = kani::any();
+    let t: [u8; 4] = kani::any();
+    let req: [u8; 41] = [
+        h[0], h[1], h[2], h[3], 0, 1, 0, 0, 0, 0, 0, 2, 1, b'a', 0, 0, 1, 0, 1, // question a. A IN
+        0, 0, 1, c[0], c[1], c[2], c[3], c[4], c[5], 0, 0, // ordinary record: root owner, type A, RDLENGTH 0
+        0, 0, 41, 16, 0, t[0], t[1], t[2], t[3], 0, 0, // OPT
+    ];
+    let seen = exchange_udp(CatNone, CAT_NONE, &req, 7, 512);
+    kani::cover!(seen.responded && seen.rcode == RC_REFUSED && seen.has_opt, "REFUSED with OPT seen");
+    kani::cover!(seen.responded && seen.rcode == RC_BADVERS, "BADVERS seen");
 }
